@@ -1,4 +1,5 @@
 import Model.Diff.Apply
+import Model.Diff.TypesG
 /-!
 # What C06 / C07 mean, independent of the diff algorithm
 
@@ -209,5 +210,19 @@ structure WF (a : Schema) : Prop where
   table_wf : ∀ t ∈ a, TableWF t
 
 def SchemaOk (cfg : Cfg) (a : Schema) : Prop := ∀ t ∈ a, ∀ c ∈ t.cols, colOk cfg c = true
+
+end Spec.Diff
+
+/-! ## type family changes on any dialect -/
+namespace Spec.Diff
+open Model.Diff
+
+/-- two tokenised types that *must* be reported as different whatever their arguments: the
+first tokens differ and no synonym group of the dialect holds both first tokens or both full
+term strings.  (The harness draws such pairs from different type families.) -/
+def mustDiffer (syn : List (List String)) (i m : G.Params) : Bool :=
+  i.token0 != m.token0 &&
+  syn.all (fun b => !(G.inGroup b i.token0 && G.inGroup b m.token0)) &&
+  syn.all (fun b => !(G.inGroup b (G.allTerms i) && G.inGroup b (G.allTerms m)))
 
 end Spec.Diff
